@@ -487,6 +487,56 @@ def tree_mutations(rng, js):
 
 
 # ------------------------------------------------------------------ the check
+def scramble(x, depth=0):
+    """edits a loaded object in place, everywhere a caller (or ahbicht itself: FcEvaluator.evaluate_single_format_constraint assigns error_message)
+    can: attributes of attrs instances are re-assigned, dicts and lists are changed through their own methods"""
+    import enum
+
+    import attrs
+
+    if depth > 6:
+        return
+    if attrs.has(type(x)):
+        for a in attrs.fields(type(x)):
+            v = getattr(x, a.name)
+            if attrs.has(type(v)) or isinstance(v, (dict, list)):
+                scramble(v, depth + 1)
+                continue
+            if isinstance(v, bool):
+                new = not v
+            elif isinstance(v, enum.Enum):
+                continue
+            elif isinstance(v, str):
+                new = v + " (edited)"
+            elif v is None:
+                new = "edited"
+            else:
+                continue
+            try:
+                setattr(x, a.name, new)
+            except Exception:  # pylint: disable=broad-except  (frozen class / validating setter)
+                pass
+    elif isinstance(x, dict):
+        for v in list(x.values()):
+            scramble(v, depth + 1)
+        for k in list(x)[:1]:
+            del x[k]
+        x["999"] = None
+    elif isinstance(x, list):
+        for v in x:
+            scramble(v, depth + 1)
+        x.append("999")
+
+
+def history_round_trip(S, obj):
+    """dump; load; edit the loaded object in place; load the same JSON again -> (equal to the original?, what the second load returned)"""
+    text = S().dumps(obj)
+    first = S().loads(text)
+    scramble(first)
+    second = outcome(lambda: S().loads(text))
+    return (second[0] == "ok" and second[1] == obj), (repr(second[1])[:400] if second[0] == "ok" else f"raises {second[1]}")
+
+
 def run(ctx):
     import asyncio
 
@@ -579,6 +629,12 @@ def run(ctx):
                          "oracle: round trip of a generated instance")
             elif back[1] != obj:
                 ctx.fail(key, {"schema": S.__name__, "object": desc}, "loads(dumps(x)) == x", repr(back[1])[:400], "oracle: round trip of a generated instance")
+            if back[0] == "ok" and back[1] == obj:
+                # the round trip does not depend on what happened to objects loaded earlier (loaded objects are the caller's own)
+                hok, hobs = history_round_trip(S, obj)
+                if not hok:
+                    ctx.fail("history|" + key, {"schema": S.__name__, "object": desc, "history": "dumps(x); y = loads(..); y edited in place; loads(..) again"},
+                             "the second loads(dumps(x)) == x as well", hobs, "oracle: round trip after an object loaded earlier from the same JSON was edited in place")
             if getattr(obj, "requirement_constraints_fulfilled", 0) is None or getattr(getattr(obj, "requirement_constraint_evaluation_result", 0), "requirement_constraints_fulfilled", 0) is None:
                 n_none += 1
             n_distinct += 1
@@ -776,6 +832,9 @@ def replay(path):
         back = outcome(lambda: S().loads(text))
         print("loads  :", back[1] if back[0] == "ok" else "raises " + back[1])
         ok = back[0] == "ok" and back[1] == obj
+        if ok and "history" in inp:
+            ok, hobs = history_round_trip(S, obj)
+            print("history:", inp["history"], "->", hobs)
     else:
         from vlib import evalimpl
 
